@@ -96,6 +96,30 @@ def run(ctx, res):
             else:
                 res.add(Finding("C18.R3", fshort(b), "%s:%s" % (n["name"], T.render(p)[:60]), "the stored delimiter is used through `%s` (only a once-only strip is spelling independent)" % T.render(p)[:100], loc=T.loc(n)))
     common.registry_wiring(ctx, res, "C18.R4")
+    # the lookup key is the tag name itself (no case folding / trimming between the configured name and the tag)
+    info = common.element_table(ctx)
+    keys = {k for o in info.get("outs", []) for k in o["decisions"] if k.startswith("is_some(get(self.removal_evaluators")}
+    if keys == {"is_some(get(self.removal_evaluators, c.0.start_element.name))"}:
+        res.holds("C18.R4", "code::remover::Remover::collect_removable_ranges", "lookup-key", "get(el.start_element.name)")
+    else:
+        res.add(Finding("C18.R4", "code::remover::Remover::collect_removable_ranges", "lookup-key", "evaluators are looked up with %s, not with the tag name as written: a configured "
+                        "name of another spelling (case) would never match" % sorted(keys), loc=T.loc(info["body"]["tree"])))
+    # name discipline (same classification as C06.R4): case folding / prefix matching makes behaviour spelling dependent
+    from . import c06
+    import re
+    for (b_, n, cls, detail, origin) in c06.name_uses(P):
+        if cls != "banned":
+            continue
+        fn_ = fshort(b_)
+        m = re.search(r"\.(\w+)\((.*)\)$", detail)
+        if fn_.startswith("parser::") and m and m.group(1) in ("starts_with", "trim_start_matches", "strip_prefix") and m.group(2) == repr(kw["closing_prefix"]):
+            continue
+        if origin != "name":
+            continue              # attribute *values* are data, not spelling of the configuration
+        res.add(Finding("C18.R6", fn_, "%s:%s" % (n.get("name") or n["res"]["name"], detail), "a tag/attribute name is used through `%s`: matching is no longer by the exact "
+                        "configured spelling" % detail, loc=T.loc(n)))
+    if not [f for f in res.findings if f.rule == "C18.R6"]:
+        res.holds("C18.R6", "-", "name-discipline", "no case-folding / prefix / trimming operation on names")
     c09.strip_once(ctx, res)
     for f in res.findings:
         if f.rule == "C09.R3":
